@@ -444,12 +444,15 @@ def task_binop(gname, fname, sub, opkind):
             args.append(IntV(0, 32))
         it.run(item, args)
         need(it.prim_count["mul"] >= 1, "%s.%s executed no field multiplication" % (gname, fname))
-        out = g.fields(c1.val)
-        need(not R.atoms(out), "%s.%s: unexpected data-dependent selection" % (gname, fname))
+        # the formulas are expected to be selection-free; if they are not, an atom is decided from the
+        # non-vanishing symbols of the case (a zero coordinate of a special operand folds syntactically)
+        out, undec = decide_atoms(g.fields(c1.val), nz_syms(model, A1) | nz_syms(model, A2))
         hyps = A1.hyps + A2.hyps
         acc = Acc("%s.%s:%s" % (gname, fname, case), fn_names(it),
                   "%s(P, Q) represents P %s Q; case %s" % (fname, "-" if sub else "+", case),
                   dict(group=gname, func=fname, case=case, sub=sub, opkind=opkind, n=0))
+        if undec:
+            acc.unknowns.append("undecided selection atoms: %r" % undec[:2])
         check_expected(acc, g, out, A1, A2, sub, hyps)
         obs.append(acc.ob())
         consts.update(it.named_consts)
@@ -465,7 +468,7 @@ def task_binop(gname, fname, sub, opkind):
         if opkind == "affine_rz":
             args.append(IntV(0, 32))
         it.run(item, args)
-        out = g.fields(c1.val)
+        out, undec = decide_atoms(g.fields(c1.val), nz_syms(model, A1) | nz_syms(model, A2))
         Q = model.neg(A2) if sub else A2.xy
         BL = model.bosma_lenstra(model.embed(A1), [Q[0] * A2.z, Q[1] * A2.z, A2.z])
         acc = Acc("%s.%s:complete-law" % (gname, fname), fn_names(it),
@@ -473,6 +476,8 @@ def task_binop(gname, fname, sub, opkind):
                   "as polynomials, for all inputs (no curve equation needed)",
                   dict(group=gname, func=fname, case="generic", sub=sub, opkind=opkind, n=0),
                   bounds="none: polynomial identity over Z[x1,y1,z1,x2,y2,z2,b]")
+        if undec:
+            acc.unknowns.append("undecided selection atoms: %r" % undec[:2])
         for lab, o_, b_ in zip("XYZ", out, BL):
             acc.zero(lab, o_ - b_, model, [])
         acc.trusted.extend(model.trusted)
@@ -1296,7 +1301,7 @@ def task_ctor(gname):
             else:
                 for lab, t in model.is_neutral(out):
                     acc.zero(lab, t, model, hyps)
-                acc.nonvanishing("Y", out[1], model, hyps, [])
+                acc.nonvanishing("Y", out[1], model, hyps, [R.sym(n_) for n_ in sorted(nzs)])
                 if set(R.symbols(out)) & {str(x) for x in garbage}:
                     acc.fail("previous contents of the receiver survive")
             obs.append(acc.ob())
@@ -1686,11 +1691,26 @@ def native_check(rp, g, hint, rng, count=6):
         got, valid, same = judge(m, r[1], exp)
         checked += 1
         if not valid or not same:
-            return checked, dict(key="%s.%s" % (g.name, fkey), case=hint.get("case"),
-                                 request=_fmt(req), native_output=[hex(v) for v in r[1]],
-                                 native_affine=_aff(got), expected_affine=_aff(exp),
-                                 expected_reject=(exp == REJECT),
-                                 valid_representation=bool(valid)), None
+            mism = dict(key="%s.%s" % (g.name, fkey), case=hint.get("case"),
+                        request=_fmt(req), native_output=[hex(v) for v in r[1]],
+                        native_affine=_aff(got), expected_affine=_aff(exp),
+                        expected_reject=(exp == REJECT),
+                        valid_representation=bool(valid))
+            # what the same defect does to the other requests of this case (informative)
+            more = []
+            for (req2, exp2), r2 in list(zip(reqs, res))[checked:]:
+                if len(more) >= 5:
+                    break
+                if r2[0] == "panic":
+                    more.append(dict(request=_fmt(req2), native="panic"))
+                elif r2[0] == "ok":
+                    g2, v2, s2 = judge(m, r2[1], exp2)
+                    if not v2 or not s2:
+                        more.append(dict(request=_fmt(req2), native_affine=_aff(g2), expected_affine=_aff(exp2),
+                                         valid_representation=bool(v2)))
+            if more:
+                mism["further_mismatches"] = more
+            return checked, mism, None
     return checked, None, None
 
 
@@ -1798,6 +1818,82 @@ def ground_facts(consts, obs):
     fact("certificate denominators %r are coprime to every field prime" % dens[:12],
          all(math.gcd(d, m.p) == 1 for d in dens for m in MODELS.values() if not m.char2))
     return facts
+
+
+def special_point_facts(obs):
+    """which finite special points exist on each curve (decides which cases are posed) and the group orders
+    used to build the native corpus"""
+    facts = []
+
+    def fact(name, okv):
+        facts.append({"fact": name, "ok": bool(okv)})
+    used = {GROUPS[o.hint["group"]]["model"] for o in obs if getattr(o, "hint", None)}
+    for m in MODELS.values():
+        if m.name not in used:
+            continue
+        sp = concrete_specials(m)
+        if isinstance(m, Weierstrass):
+            L, _ = ORDERS[m.name]
+            if has_x0(m):
+                pts = sp["x=0"]
+                fact("%s: b is a square mod p: exactly two finite points have x = 0, (0, +-sqrt b); posed as the "
+                     "`x=0` cases" % m.name, len(pts) == 2 and all(m.c_oncurve(T) for T in pts) and pts[0] != pts[1])
+                fact("%s: [L](0, sqrt b) is the neutral and [2^j]H_j = (0, +-sqrt b) for the halved points of the "
+                     "native corpus" % m.name,
+                     all(c_mul(m, L, T) is None for T in pts) and
+                     all(c_mul(m, 2 ** j, H) == T for j, hs in sp["half"].items() for H, T in zip(hs, pts)))
+            else:
+                fact("%s: b is not a square mod p: no finite point has x = 0" % m.name, legendre(m.bv, m.p) == -1)
+            fact("%s: L is odd (no point with y = 0, trusted: L is the group order)" % m.name, L % 2 == 1)
+        if isinstance(m, Edwards):
+            L, h = ORDERS[m.name]
+            tors = sp["torsion"]
+            fact("%s: E[%d] is cyclic: %d distinct non-neutral torsion points on the curve, among them (0,-1) and "
+                 "two points with y = 0 (order 4)" % (m.name, h, h - 1),
+                 len(set(tors)) == h - 1 and all(m.c_oncurve(T) and T != (0, 1) for T in tors) and
+                 (0, m.p - 1) in tors and len(sp["order4"]) == 2 and
+                 all(c_mul(m, h, T) == (0, 1) for T in tors))
+    return facts
+
+
+def api_reachability(rp, obs):
+    """the finite special points are reachable through the public API: decode of their standard encodings
+    (SEC1 uncompressed / RFC 8032), from_affine and from_projective where they exist.  Informative (decoding is
+    C06's subject): recorded in the evidence, does not change a verdict."""
+    used = {o.hint["group"] for o in obs if getattr(o, "hint", None)}
+    out = {}
+    for gname in sorted(used):
+        d = GROUPS[gname]
+        if d["wrap"]:
+            continue
+        m = MODELS[d["model"]]
+        sp = concrete_specials(m)
+        reqs = []
+        if isinstance(m, Weierstrass):
+            for T in sp["x=0"]:
+                reqs.append(((gname, "decode", 0, [b"\x04" + T[0].to_bytes(32, "big") + T[1].to_bytes(32, "big")]), T))
+                reqs.append(((gname, "decode", 0, [bytes([2 + (T[1] & 1)]) + T[0].to_bytes(32, "big")]), T))
+                reqs.append(((gname, "from_affine", 0, list(T)), T))
+                reqs.append(((gname, "from_projective", 0, m.c_embed(T, 3)), T))
+        elif isinstance(m, Edwards):
+            nb = 32 if m.name == "ed25519" else 57
+            for T in sp["torsion"]:
+                v = T[1] | ((T[0] & 1) << (8 * nb - 1))
+                reqs.append(((gname, "decode", 0, [v.to_bytes(nb, "little")]), T))
+        if not reqs:
+            continue
+        try:
+            res = rp.run([r for r, _ in reqs], ENC)
+            okn = 0
+            for (req, exp), r in zip(reqs, res):
+                if r[0] == "ok":
+                    got, valid, same = judge(m, r[1], exp)
+                    okn += bool(valid and same)
+            out[gname] = "%d of %d constructions of special points through decode/from_affine/from_projective " \
+                         "return the point" % (okn, len(reqs))
+        except Exception as e:  # noqa
+            out[gname] = "error: %s" % e
+    return out
 
 
 def run(tier, only=None):
@@ -1911,6 +2007,8 @@ def run(tier, only=None):
             if o.verdict != "discharged":
                 o.reason += " | native replay not built: %s" % (rp.error or "")[:200]
     facts = ground_facts(consts, obs)
+    facts += special_point_facts(obs)
+    reach = api_reachability(rp, obs) if rp.exe else {"error": "replay harness not built"}
     bad = [f for f in facts if not f["ok"]]
     if bad and not merr:
         # a failed ground fact invalidates the stub it supports: report, do not alarm
@@ -1936,11 +2034,17 @@ def run(tier, only=None):
                      "build on random operands on every run)",
                      "affine group laws in engines/polyid/curves.py (validated natively; jq255 through the "
                      "double-odd Weierstrass curve)"] + trusted,
-        outside=["equals/isneutral/encode (C06)", "set_mul_small for n outside the listed set",
-                 "set_xdouble n > 3 (composition argument only)"],
+        outside=["equals/isneutral/encode/decode (C06)", "set_mul_small for n outside the listed set",
+                 "set_xdouble n > 3 (composition argument only)",
+                 "Edwards points of order 8 and mixed-order points have no symbolic case of their own: they are "
+                 "instances of the `generic` case (any point of the curve; the unified formulas contain no "
+                 "selection) and are part of the native corpus of that case",
+                 "set_xdouble on the Jacobian detour (P-256) when a selection atom depends on a non-monomial "
+                 "quantity: reported inconclusive, no case split on the atom"],
         ground_facts={"checked": len(facts) + native["checked"], "failed": len(bad) + native["failed"],
                       "facts": facts, "native_spec_validation": native},
-        extra={"mir_seconds": round(mir_secs, 1), "replay_build_seconds": round(rp.secs, 1)},
+        extra={"mir_seconds": round(mir_secs, 1), "replay_build_seconds": round(rp.secs, 1),
+               "special_points_api_reachability": reach},
         machinery_error=merr)
 
 
